@@ -947,8 +947,15 @@ def remove(
     conn = connect()
     conn.set_progress_handler(progress.update, 100000)
     try:
-        for rowid, id, _, _, _, _, version, *_ in find_lexicons(lexicon=lexicon):
+        # select everything first: removing while selecting would resolve
+        # later specifiers against what is left
+        removed: set[int] = set()
+        lexicons = list(find_lexicons(lexicon=lexicon))
+        for rowid, id, _, _, _, _, version, *_ in lexicons:
+            if rowid in removed:
+                continue  # already removed as an extension
             extensions = _find_all_extensions(rowid)
+            removed.update([rowid] + [ext_id for ext_id, _ in extensions])
 
             with conn:
 
